@@ -37,6 +37,8 @@ def run(ctx):
     r10_4(ctx, rep, roles)
     c11.r11_1(ctx, rep, roles, P="C10")
     ctx.report.rules[-1].id = "R10.5"
+    from .. import wrappers
+    wrappers.fd_glue(ctx, rep, roles, "C10", "R10.6")
 
 
 def r10_2(ctx, rep, roles):
